@@ -3,6 +3,7 @@ package main
 import (
 	"fmt"
 	"go/types"
+	"reflect"
 	"strings"
 
 	"golang.org/x/tools/go/ssa"
@@ -929,6 +930,9 @@ func snapCopy(v Value, ptrs map[*Value]*Value, arrs map[*ArrayVal]*ArrayVal, map
 // and strings compare symbolically; shapes (nil-ness, lengths, dynamic types,
 // map entries in their stored order) must match exactly.
 func snapEq(e *Engine, a, b Value, seen map[[2]*Value]bool) *Term {
+	if reflect.TypeOf(a) != reflect.TypeOf(b) {
+		return tFalse // e.g. a nil byte slice that now holds a document
+	}
 	switch x := a.(type) {
 	case *Term:
 		y, ok := b.(*Term)
